@@ -134,12 +134,15 @@ def run(ctx):
       x = x + ';name=' + rng.choice(['a', '~b', ''])
     if rng.random() < 0.15:
       x = x + rng.choice(['{a="b"}', '"}', '={b="a",a="b"}', '{a="\\""}', '{a="b":,b="a"}', '{a="b",}', '{a="~"}', '{a=""}'])
+    if rng.random() < 0.004:
+      # a very long name that breaks a tag rule (stored exactly as received, however long) or keeps them
+      x = 'a' * rng.randint(380, 430) + rng.choice([';=b', ';a=', ';a=b;a', ';b=a'])
     ok, parsed = te.parse(x)
     recs.append(dict(kind='carbon', str=codes(x), ok=ok, parsed=codes(parsed), stored=codes(te.stored(x)),
                      relayed=codes(te.relayed(x)), text=x))
   # (ii) series in every order and both syntaxes
   # keys and names over characters both syntaxes can carry (OpenMetrics has no escaping outside values)
-  keyc, valc, namec = 'ab.~\u00e9', 'ab=!^,{}"\\~\u00e9\u4e2d', 'ab~.\u00e9'      # incl. non-ASCII letters
+  keyc, valc, namec = 'abAB.~\u00e9', 'abA=!^,{}"\\~\u00e9\u4e2d', 'ab~.\u00e9'      # incl. upper case and non-ASCII letters
   for _ in range(ctx.pick(120, 1500)):
     nt = rng.randint(0, 4)
     name = ''.join(rng.choice(namec) for _ in range(rng.randint(1, 3)))
